@@ -45,6 +45,10 @@ def run(ctx) -> None:
     check_snapshot(ctx)
     check_net(ctx)
     c01.check_bounds(ctx)
+    from . import objform
+
+    ctx.rule("C04.objective", "finite evaluation: set_objective leaves exactly the given coefficients in the solver objective", floor=1)
+    ctx.guard(objform.check_set_objective, ctx, "C04.objective")
 
 
 # ------------------------------------------------------------------------------------- accessors
@@ -395,6 +399,9 @@ def check_net(ctx) -> None:
             n += 1
             v = st.value
             ok = isinstance(v, ast.BinOp) and isinstance(v.op, ast.Sub) and c01.tag_of(ctx, fn, v.right) == {"REV"} and "REV" not in c01.tag_of(ctx, fn, v.left)
+            if ok and isinstance(v.left, ast.Subscript) and isinstance(v.right, ast.Subscript) and norm(v.left.value) != norm(v.right.value):
+                ctx.bad("C04.net", fn, st, f"the two halves of `{norm(st.targets[0])}` are read from different tables (`{norm(v.left.value)}` and `{norm(v.right.value)}`)")
+                continue
             cond = [a for a in ancestors(st) if isinstance(a, ast.If) and "is_integer" not in norm(a.test)]
             if ok and not cond:
                 ctx.ok("C04.net", fn, st, "net value forward - reverse, for every reaction")
@@ -420,7 +427,13 @@ def check_net(ctx) -> None:
         for r in rets:
             v = r.value
             if isinstance(v, ast.BinOp) and isinstance(v.op, ast.Sub) and c01.tag_of(ctx, f, v.right) == {"REV"} and c01.tag_of(ctx, f, v.left) == {"FWD"}:
-                ctx.ok("C04.net", f, r, "forward - reverse")
+                want = {"Reaction.flux": "primal", "Reaction.reduced_cost": "dual"}[name]
+                la = v.left.attr if isinstance(v.left, ast.Attribute) else None
+                ra = v.right.attr if isinstance(v.right, ast.Attribute) else None
+                if la == ra == want:
+                    ctx.ok("C04.net", f, r, f"forward.{want} - reverse.{want}")
+                else:
+                    ctx.bad("C04.net", f, r, f"{name} subtracts `{norm(v.right)}` from `{norm(v.left)}`: both sides must read `.{want}`; the accessor then disagrees with Solution and with the LP for every reaction that carries reverse flux")
             elif isinstance(v, ast.BinOp):
                 ctx.bad("C04.net", f, r, "the accessor does not return forward - reverse")
 
